@@ -55,6 +55,18 @@ def wcag(a, b, large):
 '''
 
 LABELS = {"AAA": "Very Readable", "AA": "Readable", "FAIL": "Not Readable"}
+LABEL_REF = '''
+def label(lvl):
+    if lvl == "AAA":
+        return "Very Readable"
+    elif lvl == "AA":
+        return "Readable"
+    else:
+        return "Not Readable"
+
+def readable(self):
+    return label(level(ratio(self.text.rgb, self.bg.rgb), self.large))
+'''
 
 
 def knee_policy(**kw):
@@ -94,39 +106,27 @@ def run(project, chk):
     audit(project, chk, "F4", f"{C}.get_contrast_level", REF, "level", Policy(var_map={"r": "contrast_ratio"}), "the WCAG level thresholds", inline=False)
     audit(project, chk, "F4", f"{C}.get_wcag_level", REF, "wcag", knee_policy(var_map={"a": "text_rgb", "b": "bg_rgb"}), "level(ratio(text, bg), large)")
 
-    # F5: label mapping by partial evaluation over the closed set of levels
+    # F5: is_readable == label(level(ratio(self.text.rgb, self.bg.rgb), self.large)) for a valid pair: the closed form (package
+    # helpers and the class's own properties inlined, the ratio kept symbolic -- it is F3's subject) against the definition
+    from sa.formula import inline_self_properties, specialise
     fi = project.func("cm_colors.core.colors.ColorPair.is_readable")
     chk.saw_function(fi)
+    RATIO_Q = f"{C}.calculate_contrast_ratio"
     try:
         ex, env, ret = extract_function(project, fi)
+        ret = inline_self_properties(ret, project, fi)
+        code = inline_calls(ret, project_resolver(project, exclude=(RATIO_Q,)))
+        code = inline_self_properties(code, project, fi)
     except Unsupported as e:
         raise AnalysisError(f"ANALYSIS-INCONCLUSIVE {fi.short}: not readable ({e})")
-    WCAG_Q = "cm_colors.core.contrast.get_wcag_level"
-    calls = []
 
-    def find(n):
-        if n[0] == "call" and n[1] == WCAG_Q:
-            calls.append(n)
+    def valid_pair(n):
+        # the property speaks of valid pairs: every is_valid test is true, _rgb and rgb denote the same triple
+        if n[0] == "attr" and n[2] == "is_valid":
+            return ("lit", True)
+        if n[0] == "attr" and n[2] == "_rgb":
+            return ("attr", n[1], "rgb")
         return n
-    transform(ret, find)
-    loc = project.loc(fi.module, fi.node)
-    uniq = {c for c in calls}
-    if len(uniq) != 1:
-        raise AnalysisError(f"{fi.short}: expected exactly one get_wcag_level call, found {len(uniq)}")
-    call = next(iter(uniq))
-    want_args = (("attr", ("attr", ("var", "self"), "text"), "rgb"), ("attr", ("attr", ("var", "self"), "bg"), "rgb"), ("attr", ("var", "self"), "large"))
-    got = tuple(a[2] if a[0] == "kw" else a for a in call[2])
-    got = tuple(("attr", g[1], "rgb") if g[0] == "attr" and g[2] == "_rgb" else g for g in got)
-    chk.check(got == want_args, "F5", fi.short, show(call), loc, "is_readable judges (self.text.rgb, self.bg.rgb, self.large)", how=f"arguments: {show(call)}",
-              message=f"is_readable judges {show(call)} instead of get_wcag_level(self.text.rgb, self.bg.rgb, self.large)")
-    for lvl, label in LABELS.items():
-        def sub(n, lvl=lvl):
-            if n[0] == "call" and n[1] == WCAG_Q:
-                return ("str", lvl)
-            if n == ("attr", ("var", "self"), "is_valid"):
-                return ("lit", True)
-            return n
-        r = transform(ret, sub)
-        ok = r == ("str", label)
-        chk.check(ok, "F5", fi.short, f"level {lvl}", loc, f"level {lvl} is labelled {label!r}", how=f"partial evaluation of the if-chain with level := {lvl!r} gives {show(r)}",
-                  message=f"level {lvl} is labelled {show(r)} instead of {label!r}")
+    code = specialise(code, valid_pair)
+    audit(project, chk, "F5", "cm_colors.core.colors.ColorPair.is_readable", REF + LABEL_REF, "readable", Policy(), "the readability label of a valid pair",
+          code_expr=code, inline=False, call_map={"ratio": RATIO_Q})
